@@ -447,3 +447,192 @@ func TestC05_ModeTable(t *testing.T) {
 		}
 	})
 }
+
+// ---- sparse states: the run starts from (almost) nothing --------------------------------------------------------------
+//
+// The table above always has a populated snapshot directory. Here the directory is absent, exists but is EMPTY (created by
+// a pipeline step, a Dockerfile, a wiped checkout), or the addressed multi-entry file holds only entries of tests that no
+// longer exist (the tests were renamed and the snapshots not regenerated). The mode table is the same.
+
+type c05Sparse struct {
+	CI    bool   `json:"ci"`
+	Opt   string `json:"update_option"`
+	Upd   string `json:"update_snaps"`
+	Sort  bool   `json:"sort"`
+	API   string `json:"api"`
+	Ext   string `json:"ext"`
+	State string `json:"initial_state"` // no_dir | empty_dir | only_obsolete_entries
+	Val   string `json:"value"`
+}
+
+func allC05Sparse(seed int) []c05Sparse {
+	var cells []c05Sparse
+	i := 0
+	for _, ci := range []bool{false, true} {
+		for _, opt := range []string{"unset", "true", "false"} {
+			for _, upd := range []string{unsetEnv, "true", "clean", "false"} {
+				for _, srt := range []bool{false, true} {
+					for _, api := range []string{"snap", "json", "yaml", "ssnap", "sjson"} {
+						for _, state := range []string{"no_dir", "empty_dir", "only_obsolete_entries"} {
+							i++
+							if state == "only_obsolete_entries" && (api == "ssnap" || api == "sjson") {
+								continue // (a standalone call does not address the multi-entry file)
+							}
+							cells = append(cells, c05Sparse{CI: ci, Opt: opt, Upd: upd, Sort: srt, API: api, State: state,
+								Ext: []string{"", "", ".txt"}[(i+seed)%3], Val: c05Value(api, seed*7919+i)})
+						}
+					}
+				}
+			}
+		}
+	}
+	return cells
+}
+
+func checkC05Sparse(c c05Sparse) error {
+	root, err := os.MkdirTemp(os.Getenv("VERIF_SCRATCH"), "c05s")
+	if err != nil {
+		return err
+	}
+	defer os.RemoveAll(root)
+	dir := filepath.Join(root, "snaps")
+	cfg := Cfg{Dir: strp(dir), Filename: "f", Ext: c.Ext}
+	multi := c.API == "snap" || c.API == "json" || c.API == "yaml"
+	if !multi {
+		cfg.Filename = ""
+	}
+	switch c.Opt {
+	case "true":
+		cfg.Update = boolp(true)
+	case "false":
+		cfg.Update = boolp(false)
+	}
+	multiRel := filepath.Join("snaps", "f.snap"+c.Ext)
+	cutRel := multiRel
+	if !multi {
+		ext := c.Ext
+		if ext == "" && c.API == "sjson" {
+			ext = ".json"
+		}
+		cutRel = filepath.Join("snaps", "TestAlpha_1.snap"+ext)
+	}
+	old := []Entry{{ID: "TestOld - 1", Body: "old one"}, {ID: "TestOld/sub - 1", Body: "old two\nline 2"}}
+	switch c.State {
+	case "empty_dir":
+		os.MkdirAll(dir, 0o755)
+	case "only_obsolete_entries":
+		os.MkdirAll(dir, 0o755)
+		var sb strings.Builder
+		for _, e := range old {
+			sb.WriteString("\n[" + e.ID + "]\n" + e.Body + "\n---\n")
+		}
+		os.WriteFile(filepath.Join(root, multiRel), []byte(sb.String()), 0o644)
+	}
+	ageDir(root)
+	d0 := snapDir(root)
+	run := Scenario{Tests: map[string]*Node{"TestAlpha": {Steps: []Step{{Op: "call", API: c.API, Cfg: cfg, Value: c.Val, Tag: "cut"}}}}, Clean: CleanSpec{Call: true, Sort: c.Sort}}
+	res, out, err := runProgram(RunOpts{Pkg: ".", CI: c.CI, Upd: c.Upd, UpdSet: c.Upd != unsetEnv}, run)
+	if err != nil {
+		return fmt.Errorf("run: %v (%s)", err, clip(out))
+	}
+	d1 := snapDir(root)
+	want := "failed"
+	if !c.CI && c.Opt != "false" {
+		want = "added"
+	}
+	if got := outcomeOfCall(res.byTag("cut")); got != want {
+		return fmt.Errorf("call outcome %q, the mode table says %q (errors %v)", got, want, res.byTag("cut"))
+	}
+	if c.CI {
+		if d := diffDirs(d0, d1, true); d != "" {
+			return fmt.Errorf("on CI nothing may be created, modified or deleted, but: %s", d)
+		}
+		return nil
+	}
+	deletes := c.Upd == "true" || c.Upd == "clean"
+	for p, b := range d0 {
+		a, exists := d1[p]
+		switch {
+		case b.IsDir:
+			if !exists {
+				return fmt.Errorf("directory %q (state %s) was removed", p, c.State)
+			}
+		case p == multiRel:
+			wantEntries := []Entry{}
+			if !deletes {
+				wantEntries = append(wantEntries, old...)
+			}
+			if want == "added" {
+				wantEntries = append(wantEntries, Entry{ID: "TestAlpha - 1", Body: "\x00new"})
+			}
+			if c.Sort {
+				sort.SliceStable(wantEntries, func(i, j int) bool { return naturalCmp(wantEntries[i].ID, wantEntries[j].ID) < 0 })
+			}
+			if !exists {
+				if len(wantEntries) == 0 {
+					continue // every entry was obsolete and deleting is allowed: an emptied file may go as well
+				}
+				return fmt.Errorf("addressed file %q was removed; the mode table implies entries %v", p, ids(wantEntries))
+			}
+			post, perr := refParse(a.Data)
+			if perr != nil && strings.TrimSpace(a.Data) != "" {
+				return fmt.Errorf("file %q not well formed after the run: %v", p, perr)
+			}
+			if len(post) != len(wantEntries) {
+				return fmt.Errorf("file %q: entries %s, the mode table implies ids %v (UPDATE_SNAPS=%q)", p, describe(post), ids(wantEntries), c.Upd)
+			}
+			for i := range post {
+				if post[i].ID != wantEntries[i].ID || (wantEntries[i].Body != "\x00new" && post[i].Body != wantEntries[i].Body) {
+					return fmt.Errorf("file %q: entries %s, the mode table implies ids %v with the old bodies", p, describe(post), ids(wantEntries))
+				}
+			}
+			if !deletes && want != "added" && (a.Data != b.Data || !a.Mtime.Equal(b.Mtime)) {
+				return fmt.Errorf("file %q: nothing in this mode may write it, but it was written", p)
+			}
+		default:
+			if !exists || a.Data != b.Data {
+				return fmt.Errorf("%q was removed or written", p)
+			}
+		}
+	}
+	for p, a := range d1 {
+		if _, ok := d0[p]; ok {
+			continue
+		}
+		if want == "added" && (p == cutRel || (a.IsDir && p == "snaps")) {
+			continue
+		}
+		return fmt.Errorf("%q was created although the mode table does not allow it (outcome %s)", p, want)
+	}
+	if want == "added" {
+		if _, ok := d1[cutRel]; !ok {
+			return fmt.Errorf("call reported added but %q does not exist", cutRel)
+		}
+	}
+	return nil
+}
+
+func classifyC05Sparse(c c05Sparse) ([]string, bool) {
+	cls := []string{"initial_state_" + c.State, "api_" + c.API}
+	if c.CI {
+		cls = append(cls, "ci")
+	}
+	return cls, true
+}
+
+func TestC05_SparseStates(t *testing.T) {
+	seed, _ := strconv.Atoi(getenv("VERIF_SEED", "1"))
+	nshards, _ := strconv.Atoi(getenv("VERIF_NSHARDS", "1"))
+	shard, _ := strconv.Atoi(getenv("VERIF_SHARD", "0"))
+	p := prop[c05Sparse]{property: "C05", check: checkC05Sparse, classify: classifyC05Sparse}
+	p.enumerate(t, func(yield func(c05Sparse) bool) {
+		for i, c := range allC05Sparse(seed) {
+			if i%nshards != shard {
+				continue
+			}
+			if !yield(c) {
+				return
+			}
+		}
+	})
+}
